@@ -118,9 +118,18 @@ def outcome_of(p: Path, view: View, in_loop: bool = False) -> Outcome:
             if not view.ignore_asserts:
                 o.segments[-1][0].append('assert %s' % e.value)
         elif e.kind == 'loop':
-            o.segments[-1][0].append('loop %s' % e.target)
+            # state the loop body can see must be in place before it starts; the rest of the
+            # net state carries across a loop that never suspends
+            text = _region_text(e.region)
+            events, writes = o.segments[-1]
+            for k in sorted(writes):
+                fld = k.split('[')[0]
+                if fld in text or k in text:
+                    events.append('write %s := %s' % (k, writes.pop(k)))
+            events.append('loop %s' % e.target)
             o.loops.append((e.target, e.region))
-            o.segments.append(([], {}))
+            if _region_yields(e.region):
+                o.segments.append(([], {}))
         elif e.kind == 'except':
             o.segments[-1][0].append('except %s' % e.target)
     ex = p.exit
@@ -136,6 +145,27 @@ def outcome_of(p: Path, view: View, in_loop: bool = False) -> Outcome:
             ex = 'end'
     o.exit = ex
     return o
+
+
+def _region_text(region) -> str:
+    parts = [region.header or '']
+    for p in region.paths:
+        parts.append(p.cond_str())
+        for e in p.effects:
+            parts.append(e.key())
+            if e.kind == 'loop':
+                parts.append(_region_text(e.region))
+    return ' ; '.join(parts)
+
+
+def _region_yields(region) -> bool:
+    for p in region.paths:
+        for e in p.effects:
+            if e.kind == 'yield':
+                return True
+            if e.kind == 'loop' and _region_yields(e.region):
+                return True
+    return False
 
 
 class Mismatch:
